@@ -126,7 +126,7 @@ def write_group(fn, cases):
         kw = {}
         if fill is not None:
             kw["fill_value"] = np_vals([fill], c["dt"])[0]
-        v = nc.createVariable(name, c["dt"], dnames, **kw)
+        v = nc.createVariable(name, c["dt"], dnames, endian=c.get("endian", "native"), **kw)
         v.set_auto_maskandscale(False)
         v.setncattr("long_name", name)
         for k, a in c["attrs"].items():
@@ -134,7 +134,7 @@ def write_group(fn, cases):
         v[...] = np_vals(c["data"], c["dt"]).reshape(c["shape"])
         if c.get("kind") == "aux":
             # carrier field + bounds; the bounds hold the same raw values twice
-            b = nc.createVariable(name + "_bnds", c["dt"], dnames + ("bnd",), **kw)
+            b = nc.createVariable(name + "_bnds", c["dt"], dnames + ("bnd",), endian=c.get("bendian", "native"), **kw)
             b.set_auto_maskandscale(False)
             for k, a in c["attrs"].items():
                 set_raw_attr(b, k, a)
@@ -200,11 +200,11 @@ def attempt(fun):
 
 def observe(x, c, mask, out):
     """x: a construct with data read from the case's variable."""
-    out["whole"] = attempt(lambda: x.array)
     try:
-        out["decl"] = x.data.dtype.str[1:]
+        out["decl"] = x.data.dtype.str[1:]          # declared before any data are read
     except Exception as ex:
         out["decl"] = "err:" + errclass(ex)
+    out["whole"] = attempt(lambda: x.array)
     if c.get("idx") is not None and c["shape"]:
         idx = mk_index(c["idx"])
         out["sub"] = attempt(lambda: x[idx].array)
@@ -294,7 +294,7 @@ def put_var(nc, name, var, dnames, extra=None):
     kw = {}
     if var.get("fill") is not None:
         kw["fill_value"] = np_vals([var["fill"]], var["dt"])[0]
-    v = nc.createVariable(name, var["dt"], dnames, **kw)
+    v = nc.createVariable(name, var["dt"], dnames, endian=var.get("endian", "native"), **kw)
     v.set_auto_maskandscale(False)
     for k, a in var["attrs"].items():
         set_raw_attr(v, k, a)
@@ -367,7 +367,7 @@ def write_geom(nc, c):
                  "coordinates": f"lon{i} lat{i}",
                  "node_count": f"nc{i}", "part_node_count": f"pnc{i}", "interior_ring": f"ir{i}"})
     for nm, vals in (("nc", GEOM["node_count"]), ("pnc", GEOM["part_node_count"])):
-        v = nc.createVariable(f"{nm}{i}", "i4", (inst if nm == "nc" else part,))
+        v = nc.createVariable(f"{nm}{i}", "i4", (inst if nm == "nc" else part,), endian=c.get("count_endian", "native"))
         v[...] = vals
     for nm, key, dim in (("ir", "ir", part), ("x", "x", node), ("y", "y", node), ("lon", "lon", inst), ("lat", "lat", inst)):
         var = c[key]
@@ -390,7 +390,7 @@ def write_dsg(nc, c):
     st, ob = f"st{i}", f"ob{i}"
     nc.createDimension(st, 2)
     nc.createDimension(ob, 5)
-    rs = nc.createVariable(f"rs{i}", c["count_dt"], (st,))
+    rs = nc.createVariable(f"rs{i}", c["count_dt"], (st,), endian=c.get("count_endian", "native"))
     rs.setncatts({"sample_dimension": ob, "long_name": f"rs{i}"})
     rs[...] = [3, 2]
     put_var(nc, f"c{i}", c["data_var"], (ob,), {"long_name": f"c{i}", "coordinates": f"t{i} la{i}"})
